@@ -58,7 +58,7 @@ def main():
     work = tempfile.mkdtemp(prefix=f"b2z-verif-{pid}-", dir=work_root)
     os.makedirs(os.path.join(VERIF, "evidence"), exist_ok=True)
     os.makedirs(os.path.join(VERIF, "replays"), exist_ok=True)
-    ctx = Ctx(pid, args.tier, seed, work)
+    ctx = Ctx(pid, args.tier, seed, work, genextract=cfg.get("genextract"))
     ctx.replay_case = None
     if args.replay:
         ctx.replay_case = json.load(open(args.replay))
